@@ -1177,7 +1177,11 @@ func runOne(sc Scenario, mainFn func(), reset func(), realOut, realErr *os.File,
 		mainFn()
 		r.finish("exit", 0) // main returned
 	}()
+	dbgT0 := time.Now()
 	r.awaitEnd()
+	if os.Getenv("SIMRT_DEBUG") != "" {
+		fmt.Fprintf(realErr, "awaitEnd took %v status=%s ticks=%d\n", time.Since(dbgT0), r.status, r.ticks)
+	}
 	retire := false
 
 	// The simulated process is gone. Whatever its goroutines still do is discarded.
@@ -1192,12 +1196,33 @@ func runOne(sc Scenario, mainFn func(), reset func(), realOut, realErr *os.File,
 	}
 	r.timers = nil
 	r.mu.Unlock()
+	// Wait until no goroutine of the ended process can run instrumented code any more: each
+	// has finished, or sits in a real blocking operation between BeginBlock and EndBlock —
+	// from where it can only come back through EndBlock, which unwinds it (it knows its own
+	// run). Goroutines parked for the baton were released by finish.
 	all := make(chan struct{})
 	go func() { <-g0; r.wg.Wait(); close(all) }()
-	select {
-	case <-all:
-	case <-time.After(3 * time.Second): // real time, infrastructure only: a goroutine blocked for good
-		retire = true
+	deadline := time.Now().Add(3 * time.Second)
+wait:
+	for {
+		select {
+		case <-all:
+			break wait
+		case <-time.After(time.Millisecond):
+		}
+		r.smu.Lock()
+		quiet := r.sch.alive <= r.sch.inBlock
+		if os.Getenv("SIMRT_DEBUG") != "" {
+			fmt.Fprintf(realErr, "postwait alive=%d inBlock=%d holder=%v ready=%d\n", r.sch.alive, r.sch.inBlock, r.sch.holder != nil, len(r.sch.ready))
+		}
+		r.smu.Unlock()
+		if quiet {
+			break
+		}
+		if time.Now().After(deadline) { // real time, infrastructure only: a goroutine blocked off the books
+			retire = true
+			break
+		}
 	}
 	os.Stdout, os.Stderr = realOut, realErr
 	devnull.Close()
